@@ -33,25 +33,25 @@ SimplerDef(f, g) == \/ f[2] < g[2]
 
 (* An interval [lo, hi, il, ih]: endpoints lo <= hi, inclusive flags. *)
 Ival(lo, hi, il, ih) == [lo |-> lo, hi |-> hi, il |-> il, ih |-> ih]
-InIval(f, I) == /\ (IF I.il THEN FLe(I.lo, f) ELSE FLt(I.lo, f))
-                /\ (IF I.ih THEN FLe(f, I.hi) ELSE FLt(f, I.hi))
-\* the integers n with n/d in I form a range; least and greatest of them
-LeastNum(d, I) == LET x == FloorMul(I.lo, d) IN
-                  IF I.il /\ x * I.lo[2] = I.lo[1] * d THEN x ELSE x + 1
-GreatestNum(d, I) == LET y == -FloorMul(FNeg(I.hi), d) IN            \* ceil(hi * d)
-                     IF I.ih /\ y * I.hi[2] = I.hi[1] * d THEN y ELSE y - 1
-SomeWithDen(d, I) == LeastNum(d, I) <= GreatestNum(d, I)
-\* the numerator of least magnitude among the fractions n/d in I (exists)
-LeastMagNum(d, I) == LET a == LeastNum(d, I) b == GreatestNum(d, I) IN
+InIval(f, J) == /\ (IF J.il THEN FLe(J.lo, f) ELSE FLt(J.lo, f))
+                /\ (IF J.ih THEN FLe(f, J.hi) ELSE FLt(f, J.hi))
+\* the integers n with n/d in J form a range; least and greatest of them
+LeastNum(d, J) == LET x == FloorMul(J.lo, d) IN
+                  IF J.il /\ x * J.lo[2] = J.lo[1] * d THEN x ELSE x + 1
+GreatestNum(d, J) == LET y == -FloorMul(FNeg(J.hi), d) IN            \* ceil(hi * d)
+                     IF J.ih /\ y * J.hi[2] = J.hi[1] * d THEN y ELSE y - 1
+SomeWithDen(d, J) == LeastNum(d, J) <= GreatestNum(d, J)
+\* the numerator of least magnitude among the fractions n/d in J (exists)
+LeastMagNum(d, J) == LET a == LeastNum(d, J) b == GreatestNum(d, J) IN
                      IF a <= 0 /\ 0 <= b THEN 0 ELSE IF a > 0 THEN a ELSE b
 
-(* r is the simplest fraction of the interval I: it lies in I, no fraction of a smaller denominator
-   lies in I, and no fraction of the same denominator and smaller numerator magnitude does. *)
-IsSimplestInIval(r, I) ==
-  /\ Lowest(r) /\ InIval(r, I)
-  /\ \A d \in 1..(r[2] - 1) : ~SomeWithDen(d, I)
-  /\ DAbs(LeastMagNum(r[2], I)) = DAbs(r[1])
-  /\ (SomeWithDen(r[2], I) /\ InIval(<<DAbs(r[1]), r[2]>>, I) => r[1] >= 0)       \* positive before negative
+(* r is the simplest fraction of the interval J: it lies in J, no fraction of a smaller denominator
+   lies in J, and no fraction of the same denominator and smaller numerator magnitude does. *)
+IsSimplestInIval(r, J) ==
+  /\ Lowest(r) /\ InIval(r, J)
+  /\ \A d \in 1..(r[2] - 1) : ~SomeWithDen(d, J)
+  /\ DAbs(LeastMagNum(r[2], J)) = DAbs(r[1])
+  /\ (SomeWithDen(r[2], J) /\ InIval(<<DAbs(r[1]), r[2]>>, J) => r[1] >= 0)       \* positive before negative
 
 \* simplest_in(l, u): the open interval between the endpoints in either order; equal endpoints
 \* give that number back (documented)
